@@ -752,6 +752,11 @@ def eval_condition(env, node, value, margin=0.0):
                     return True
                 return None
             near = abs(lhs - rhs) <= margin * scale or (margin > 0 and abs(lhs - rhs) <= ABS_BAND)
+            if margin > 0 and unit is not None and node["unit"] is not None and unit != node["unit"]:
+                # the library's tolerant comparison has an absolute part, and it compares in the
+                # unit of whichever operand it converts to: the band applies in the bound's unit too
+                k_ = env.units.factor(node["unit"]) / env.units.factor(unit)
+                near = near or abs(lhs - rhs) * k_ <= ABS_BAND
             if op in ("==", "!="):
                 if near and lhs != rhs:
                     return None
